@@ -1,5 +1,4 @@
-import JjModel.Lemmas.FilesIdentity
-import JjModel.Props.C03
+import JjModel.Lemmas.FilesShape
 /-!
   C04 — File content merge obeys the merge identity laws.
 
@@ -45,6 +44,25 @@ theorem merge_shape_hunks (terms : List Bytes) (level : HunkLevel) (sc : SameCha
   rcases collectMergedGo_length _ _ _ h with h1 | h2
   · left; simpa using h1
   · right; exact h2
+
+/-- **Shape.**  `merge` never panics (the `assert_eq!` of `collect_merged` cannot fire) and its result
+is fully resolved or has exactly the arity of the input. -/
+theorem merge_shape (terms : List Bytes) (hodd : terms.length % 2 = 1) (level : HunkLevel) (sc : SameChange) :
+    ∃ r, merge terms level sc = some r ∧ (r.length = 1 ∨ r.length = terms.length) := by
+  have har := mergeInnerHunks_arity terms hodd level sc
+  obtain ⟨r, hr⟩ := collectMergedGo_isSome terms.length _ [[]] har (Or.inl rfl)
+  refine ⟨r, hr, ?_⟩
+  rcases merge_shape_hunks terms level sc r hr with h | ⟨x, hx, hn, hl⟩
+  · exact Or.inl h
+  · rcases har x hx with h1 | h1
+    · exact absurd h1 (asResolved_none_length x hn)
+    · exact Or.inr (hl.trans h1)
+
+/-- every hunk of a `Conflict` result of `merge_hunks` … is resolved or has the input arity: stated on
+the hunk stream the collectors consume -/
+theorem merge_hunks_arity (terms : List Bytes) (hodd : terms.length % 2 = 1) (level : HunkLevel)
+    (sc : SameChange) : ∀ h ∈ mergeInnerHunks terms level sc, h.length = 1 ∨ h.length = terms.length :=
+  mergeInnerHunks_arity terms hodd level sc
 
 /-! ### identity laws -/
 
